@@ -365,6 +365,13 @@ mod keys {
     pub enum K8 { #[serde(rename_all = "SCREAMING_SNAKE_CASE")] Own { inner_field: i32 }, Inherits { inner_field: i32 } }
     #[derive(TS, Serialize)]
     pub enum K10 { r#type { a: i32 }, r#match { b: i32 } }
+    // internally / adjacently tagged enums with rename_all: the tag VALUE of every kind of variant is the renamed variant name
+    #[derive(TS, Serialize)]
+    #[serde(tag = "type", rename_all = "snake_case")]
+    pub enum K12 { RoadBike { gear_count: i32 }, PushScooter, #[serde(rename = "explicit-name")] CargoVan { load: i32 }, EmptyOne {} }
+    #[derive(TS, Serialize)]
+    #[serde(tag = "t", content = "c", rename_all = "SCREAMING-KEBAB-CASE")]
+    pub enum K13 { KeyPress { key_code: i32 }, MouseMove(i32, i32), Idle }
     // raw identifiers whose own name starts with `r` (and with `r#`-like letters): only the prefix `r#` goes
     #[derive(TS, Serialize, Default)]
     #[serde(rename_all = "PascalCase")]
@@ -432,6 +439,24 @@ fn binding_keys() -> Value {
         one("K9", &keys::K9::default(), id, keys::K9::inline()),
         one("K11", &keys::K11::default(), id, keys::K11::inline()),
     ];
+    // tagged enums: the value serde_json writes under the tag key is the string literal the binding gives that arm
+    fn tag_value(name: String, js: Value, tag: &str, arm: String) -> Value {
+        let want = js.get(tag).and_then(|v| v.as_str()).unwrap_or("<no tag>").to_string();
+        let lit = format!("\"{}\": \"{}\"", tag, want);
+        json!({"type": name, "binding": arm, "serde_json_tag_value": want, "expected_in_binding": lit, "agree": arm.contains(&lit)})
+    }
+    {
+        let inline = keys::K12::inline();
+        let arms: Vec<String> = inline.split(" | ").map(|s| s.to_string()).collect();
+        for (k, v) in [keys::K12::RoadBike { gear_count: 0 }, keys::K12::PushScooter, keys::K12::CargoVan { load: 0 }, keys::K12::EmptyOne {}].iter().enumerate() {
+            out.push(tag_value(format!("K12 variant {k}"), serde_json::to_value(v).unwrap(), "type", arms.get(k).cloned().unwrap_or_default()));
+        }
+        let inline = keys::K13::inline();
+        let arms: Vec<String> = inline.split(" | ").map(|s| s.to_string()).collect();
+        for (k, v) in [keys::K13::KeyPress { key_code: 0 }, keys::K13::MouseMove(0, 0), keys::K13::Idle].iter().enumerate() {
+            out.push(tag_value(format!("K13 variant {k}"), serde_json::to_value(v).unwrap(), "t", arms.get(k).cloned().unwrap_or_default()));
+        }
+    }
     // externally tagged enum: { "variant_name": { fields } }: compare the outer key and the inner keys of each variant
     for (v, k) in [(keys::K5::FirstVariant { r#type: 0, inner_field: 0 }, 0usize), (keys::K5::SecondOne { r#match: 0 }, 1usize)] {
         let js = serde_json::to_value(&v).unwrap();
